@@ -134,12 +134,18 @@ func (r result) String() string {
 	return fmt.Sprintf("found data=%d params=%v", r.data, r.params)
 }
 
-func build(patterns []string) (*denco.Router, error) {
+func build(patterns []string) (*denco.Router, error) { return buildHint(patterns, -1) }
+
+// buildHint builds with a caller-set SizeHint (documented as a capacity hint only); -1 = default.
+func buildHint(patterns []string, hint int) (*denco.Router, error) {
 	recs := make([]denco.Record, len(patterns))
 	for i, p := range patterns {
 		recs[i] = denco.NewRecord(p, i)
 	}
 	rt := denco.New()
+	if hint >= 0 {
+		rt.SizeHint = hint
+	}
 	var err error
 	func() {
 		defer func() {
@@ -292,7 +298,11 @@ func check(c Case) (string, string) {
 		}
 		return judge(c.Patterns, toks, c.Path, res)
 	}
-	rt, err := build(c.Patterns)
+	hint := -1
+	if strings.HasPrefix(c.Via, "lookup-sizehint-") {
+		fmt.Sscanf(c.Via, "lookup-sizehint-%d", &hint)
+	}
+	rt, err := buildHint(c.Patterns, hint)
 	if err != nil {
 		return "", ""
 	}
@@ -578,6 +588,25 @@ func main() {
 				if pi == 0 {
 					base = cur
 					basePatterns = patterns
+					// SizeHint is a capacity hint: too small, exact or too large, the answers are the same
+					for _, hint := range []int{0, 1, 8} {
+						hrt, err := buildHint(patterns, hint)
+						if err != nil {
+							r.Fail("sizehint-changes-build", fmt.Sprintf("SizeHint=%d: Build rejects %v: %v", hint, patterns, err), Case{patterns, "/", "lookup"})
+							continue
+						}
+						for qi, path := range sw.paths {
+							if qi%4 != hint%4 && !r.Thorough() {
+								continue // quick: every path with one of the hints
+							}
+							res := lookup(hrt, path)
+							evals++
+							b := cur[qi]
+							if b.found != res.found || b.data != res.data || b.panic != res.panic || !sameBinds(b.params, res.params) {
+								r.Fail("sizehint-changes-answer", fmt.Sprintf("SizeHint=%d: %s; default: %s (path %q)", hint, res, b, path), Case{patterns, path, fmt.Sprintf("lookup-sizehint-%d", hint)})
+							}
+						}
+					}
 					if r.WantSample() && si%97 == int(r.Seed%97) {
 						r.Sample(map[string]any{"patterns": patterns, "path": sw.paths[len(sw.paths)/3], "result": cur[len(sw.paths)/3].String()})
 					}
